@@ -59,24 +59,26 @@ def h_interp(H):
         it.ctx.assume(z3.And(k >= 0, k < w["count"]))
         i = bad.read((k,))
         it.assign(loop.target, SV(i), env)
-        # the loop body, statement by statement, with a look at the weights after the two cuts
-        stmts = list(loop.body)
-        snaps = {}
+        # the loop body; the weight vector is identified by what it is used for (the first sum that normalises it), not by the shape of the statements
+        n_red0 = len(getattr(it.ctx, "reduce_log", []))
         try:
-            for st in stmts:
-                it.exec_stmt(st, env)
-                if isinstance(st, ast.Assign) and isinstance(st.targets[0], ast.Name) and st.targets[0].id == "weights" and "w_raw" not in snaps:
-                    snaps["w_raw"] = env.vars["weights"].snapshot()
-                if isinstance(st, ast.Assign) and isinstance(st.targets[0], ast.Subscript) and ast.unparse(st.targets[0].value) == "weights":
-                    snaps["w_cut"] = env.vars["weights"].snapshot()
+            it.exec_block(list(loop.body), env)
             zero_path = False
         except I.ContinueEx:
             zero_path = True
+        snaps = {}
+        sums0 = [e for e in getattr(it.ctx, "reduce_log", [])[n_red0:] if e["name"] == "sum" and len(e["in_shape"]) == 1]
+        if sums0 and it.ctx.entails(A.T(sums0[0]["in_shape"][0]) == nc):
+            snaps["w_cut"] = sums0[0]["input"]
+        else:
+            raise I.Unsupported("cannot identify the normalised weight vector (no sum over all channels in the loop body)")
         r, t = z3.Ints("r t")
         it.ctx.oblige("interp.frame", A.forall([r, t], lambda: z3.Implies(z3.And(r >= 0, r < nc, t >= 0, t < ns, r != i), data.read((r, t)) == d0((r, t)))), "post",
                       "all channels other than the one being repaired are bit-identical", assume=False)
         it.ctx.oblige("interp.repairs_a_bad_channel", z3.And(i >= 0, i < nc, isbad(i)), "post")
         exps = [e for e in getattr(it.ctx, "opaque_log", []) if e["name"] == "exp"]
+        if len(exps) != 1:
+            raise I.Unsupported(f"cannot identify the distance-decay weights (found {len(exps)} exp calls in the loop body)")
         it.ctx.oblige("interp.one_decay", z3.BoolVal(len(exps) == 1 and "w_cut" in snaps), "post", "one distance-decay exp(...) per repaired channel, over all channels")
         if len(exps) == 1 and "w_cut" in snaps:
             E = exps[0]["out"]
@@ -89,6 +91,8 @@ def h_interp(H):
         else:
             mm = getattr(it.ctx, "matmul_log", [])
             ok = len(mm) == 1
+            if not ok:
+                raise I.Unsupported(f"cannot identify the weighted combination (found {len(mm)} matrix products)")
             it.ctx.oblige("interp.one_product", z3.BoolVal(ok), "post")
             if ok:
                 m = imult_w["count"]
